@@ -300,8 +300,15 @@ class Mod(object):
                 mn = '_private{}'.format(j)
                 self.emit_func(mind, mn, '{}.{}'.format(name, mn))
             elif mk == 'cond':
-                self.add('{}if True:'.format(mind))
-                self.emit_func(mind + '    ', mn, cn)
+                if D.bool():
+                    self.add('{}if True:'.format(mind))
+                    self.emit_func(mind + '    ', mn, cn)
+                else:
+                    self.add('{}if not os.path:'.format(mind))
+                    self.add('{}    pass'.format(mind))
+                    self.add('{}else:'.format(mind))
+                    self.emit_func(mind + '    ', mn, cn)
+                    self.features.add('conditional_else_branch')
                 self.features.add('conditional_in_class')
             elif mk in ('prop', 'propdel'):
                 self.emit_func(mind, mn, cn, decos=('property',))
@@ -406,7 +413,7 @@ def build_module(D, importable=True, fail_kinds=(None,), max_items=7, allow_asyn
     m.add('')
     m.add('')
     kinds_pool = ['def', 'class', 'def', 'async', 'class', 'deco', 'cond', 'try', 'main', 'asyncdeco', 'with', 'assign',
-                  'comment', 'deco2', 'subclass']
+                  'comment', 'deco2', 'subclass', 'cond_else', 'cond_elif', 'try_else']
     for i in range(D.int(2, max_items)):
         kind = D.choice(kinds_pool)
         if kind in ('async', 'asyncdeco') and not allow_async:
@@ -436,6 +443,32 @@ def build_module(D, importable=True, fail_kinds=(None,), max_items=7, allow_asyn
             m.add('if True:')
             m.emit_func('    ', name, name)
             m.features.add('conditional')
+        elif kind == 'cond_else':
+            # the definition sits in the else branch (the one that executes)
+            m.add('if not os.path:')
+            m.add('    pass')
+            m.add('else:')
+            m.emit_func('    ', name, name)
+            m.features.add('conditional')
+            m.features.add('conditional_else_branch')
+        elif kind == 'cond_elif':
+            m.add('if not os.path:')
+            m.add('    pass')
+            m.add('elif os.path:')
+            m.emit_func('    ', name, name)
+            m.add('else:')
+            m.add('    pass')
+            m.features.add('conditional')
+            m.features.add('conditional_else_branch')
+        elif kind == 'try_else':
+            m.add('try:')
+            m.add('    pass')
+            m.add('except Exception:')
+            m.add('    pass')
+            m.add('else:')
+            m.emit_func('    ', name, name)
+            m.features.add('conditional')
+            m.features.add('conditional_else_branch')
         elif kind == 'try':
             m.add('try:')
             m.emit_func('    ', name, name)
